@@ -46,3 +46,40 @@ pub open spec fn wscope_fresh(s: Scope, b: BitBuffer) -> bool {
         _ => false,
     }
 }
+
+/// the root scope `write_sequence` builds for a SEQUENCE / SET described by the constants of its Constraint,
+/// with the preamble starting at bit `pos0` (extension bit first, if the type has a marker)
+pub open spec fn wscope_built(s: Option<Scope>, std_opt: u64, field_count: u64, ext_after: Option<u64>, name: &'static str, pos0: int) -> bool {
+    match ext_after {
+        Some(e) => s == Some(Scope::ExtensibleSequence { name, bit_pos: pos0 as usize,
+                        opt_bit_field: Some(Range { start: (pos0 + 1) as usize, end: (pos0 + 1 + std_opt) as usize }),
+                        calls_until_ext_bitfield: (e + 1) as usize, number_of_ext_fields: (field_count - (e + 1)) as usize }),
+        None => s == Some(Scope::OptBitField(Range { start: pos0 as usize, end: (pos0 + std_opt) as usize })),
+    }
+}
+
+/// state in which the generated write_seq is entered: the scope above, the cursor directly behind the preamble,
+/// every preamble bit (extension bit and presence bits) initialised with 0
+pub open spec fn wseq_entry(w: UperWriter, std_opt: u64, field_count: u64, ext_after: Option<u64>, name: &'static str) -> bool {
+    w.wf() && exists|pos0: int| 0 <= pos0 && #[trigger] wscope_built(w.scope, std_opt, field_count, ext_after, name, pos0)
+        && w.bits.write_position == pos0 + (if ext_after is Some { 1int } else { 0int }) + std_opt
+        && all_zero(w.bits.buffer@, pos0, w.bits.write_position as int)
+}
+
+/// the bits [lo, hi) are 0
+#[verifier::opaque]
+pub open spec fn all_zero(b: Seq<u8>, lo: int, hi: int) -> bool {
+    forall|j: int| lo <= j < hi ==> !#[trigger] bit_at(b, j)
+}
+pub proof fn lemma_all_zero_empty(b: Seq<u8>, lo: int)
+    ensures all_zero(b, lo, lo)
+{ reveal(all_zero); }
+pub proof fn lemma_all_zero_step(b0: Seq<u8>, b1: Seq<u8>, lo: int, p: int)
+    requires all_zero(b0, lo, p), wrote_bit(b0, b1, p, false), 0 <= lo <= p, p < b1.len() * 8
+    ensures all_zero(b1, lo, p + 1)
+{
+    reveal(all_zero);
+    assert forall|j: int| lo <= j < p + 1 implies !#[trigger] bit_at(b1, j) by {
+        if j < p { assert(!bit_at(b0, j)); }
+    }
+}
